@@ -72,6 +72,7 @@ type stream struct {
 	tracerComponent              *tracing.TracerComponent
 	rebalanceLock                sync.Mutex
 	activeStreams                atomic.Int32
+	session                      atomic.Uint64
 	streamFinishedWithCloseCh    bool
 	streamFinishedWithEndEventCh bool
 	anyDirtyOffset               bool
@@ -166,16 +167,28 @@ func (s *stream) listen(args models.ListenerArgs) {
 	}
 }
 
-func (s *stream) reopenStream(vbID uint16) {
+func (s *stream) reopenStream(vbID uint16, session uint64) {
 	retry := 5
 
 	for {
+		// the stream was closed (shutdown or rebalance) while this vBucket was waiting to be re-opened:
+		// the next Open resumes it from its checkpoint, retrying here would only fail and stop the client
+		if s.session.Load() != session {
+			logger.Log.Debug("re-open stream is skipped, stream closed meanwhile, vbID: %d", vbID)
+			return
+		}
+
 		err := s.openStream(vbID)
 		if err == nil {
 			logger.Log.Info("re-open stream, vbID: %d", vbID)
 			break
 		} else {
 			logger.Log.Warn("cannot re-open stream, vbID: %d, err: %v", vbID, err)
+		}
+
+		if s.session.Load() != session {
+			logger.Log.Debug("re-open stream is abandoned, stream closed meanwhile, vbID: %d", vbID)
+			return
 		}
 
 		retry--
@@ -211,7 +224,7 @@ func (s *stream) listenEnd(endContext models.DcpStreamEndContext) {
 			errors.Is(endContext.Err, gocbcore.ErrDCPStreamStateChanged) ||
 			errors.Is(endContext.Err, gocbcore.ErrDCPStreamTooSlow) ||
 			errors.Is(endContext.Err, gocbcore.ErrDCPStreamDisconnected)) {
-		go s.reopenStream(endContext.Event.VbID)
+		go s.reopenStream(endContext.Event.VbID, s.session.Load())
 	} else {
 		activeStreams := s.activeStreams.Add(-1)
 		if activeStreams == 0 && !s.streamFinishedWithCloseCh {
@@ -414,6 +427,7 @@ func (s *stream) wait() {
 
 func (s *stream) Close(closeWithCancel bool) {
 	s.closeWithCancel = closeWithCancel
+	s.session.Add(1)
 
 	s.eventHandler.BeforeStreamStop()
 
